@@ -365,6 +365,7 @@ func runC06(r *harness.Run) {
 	r.Extra["max_depth_completed"] = maxDone
 	c06GoAPI(r, bodies)
 	c06Suspended(r)
+	runPinned(r, "C06")
 }
 
 // c06Suspended — "each coroutine keeps its own locals, loop state, call stack and open upvalues
